@@ -717,135 +717,435 @@ fn bound(n: usize) -> f64 {
     5.0 * ((n + 1) as f64).log2() + 20.0
 }
 
-const MENU: &[&str] = &["append", "push_front", "insert_middle", "rotate", "append_remove_alternate", "two_treaps_then_merge", "from_item_merge", "insert_one_third"];
+/// How a block of the block-concatenation family is built.
+#[derive(Clone, Copy, Debug, PartialEq)]
+enum Fill {
+    /// `Treap::new()`, then appends
+    NewAppend,
+    /// `Treap::new()`, then front insertions
+    NewFront,
+    /// `Treap::from_item(..)`, then appends
+    FromItem,
+}
 
-/// Runs one history to `n` elements after `offset` prior node creations (stream offset), probing the
-/// height at every doubling.  Returns Err(description) on the first violation.
-fn menu_history(name: &str, n: usize, offset: usize) -> Result<(usize, usize), String> {
+/// One directed history.  Every family is parametrised by a size `n` whose meaning is given per variant.
+#[derive(Clone, Copy, Debug, PartialEq)]
+enum Hist {
+    /// one treap whose nodes are consecutive draws of the thread; n = final number of elements
+    Basic(&'static str),
+    /// block concatenation: repeatedly build a block of `b` elements in a treap of its own and merge it
+    /// behind (or, `blk_left`, in front of) everything built so far; n = total number of elements
+    Blocks { b: usize, fill: Fill, blk_left: bool },
+    /// strided ownership: `k` treaps filled round-robin (treap i owns creations i, i+k, i+2k, …) by appends
+    /// or front insertions; n = elements per treap; every one of the k treaps is probed
+    Strided { k: usize, front: bool },
+    /// insert/remove rhythm: every round inserts `w` elements at one end and removes the w-1 older ones of
+    /// that burst again, so the survivors are every w-th creation; n = rounds = final number of elements
+    Window { w: usize, front: bool },
+    /// fixed-length queue: after `len` insertions every step inserts at one end and removes at the other;
+    /// n = number of such steps
+    Queue { len: usize, front: bool },
+    /// appends (front insertions) into one treap with operations that create no node in between;
+    /// n = final number of elements
+    Interleaved { op: &'static str, front: bool },
+}
+
+const BASIC: &[&str] = &["append", "push_front", "insert_middle", "rotate", "append_remove_alternate", "two_treaps_then_merge", "from_item_merge", "insert_one_third"];
+const BLOCK_SIZES: &[usize] = &[1, 2, 8, 64];
+/// strides / burst lengths: small ones, Fibonacci numbers (the worst case of additive generators),
+/// round decimal and binary ones
+const STRIDES: &[usize] = &[2, 3, 5, 7, 8, 10, 13, 21, 34, 55, 89, 100, 128, 144, 233, 377, 1000];
+const QUEUE_LENS: &[usize] = &[64, 256, 1024, 4096, 16384];
+const QUIET_OPS: &[&str] = &["new_empty", "merge_empty", "other_rotate", "other_queries", "self_split_merge", "all"];
+
+/// The whole menu, simplest first inside every family.
+fn menu() -> Vec<Hist> {
+    let mut v: Vec<Hist> = BASIC.iter().map(|m| Hist::Basic(m)).collect();
+    for &b in BLOCK_SIZES {
+        for fill in [Fill::NewAppend, Fill::NewFront, Fill::FromItem] {
+            for blk_left in [false, true] {
+                v.push(Hist::Blocks { b, fill, blk_left });
+            }
+        }
+    }
+    for front in [false, true] {
+        v.extend(STRIDES.iter().map(|&k| Hist::Strided { k, front }));
+    }
+    for front in [false, true] {
+        v.extend(STRIDES.iter().map(|&w| Hist::Window { w, front }));
+    }
+    for front in [false, true] {
+        v.extend(QUEUE_LENS.iter().map(|&len| Hist::Queue { len, front }));
+    }
+    for front in [false, true] {
+        v.extend(QUIET_OPS.iter().map(|&op| Hist::Interleaved { op, front }));
+    }
+    v
+}
+
+impl Hist {
+    /// name used in signatures and replay files (no ':' inside)
+    fn label(&self) -> String {
+        let end = |front: bool| if front { "front" } else { "back" };
+        match *self {
+            Hist::Basic(m) => m.to_string(),
+            Hist::Blocks { b, fill, blk_left } => {
+                let f = match fill {
+                    Fill::NewAppend => "new+append",
+                    Fill::NewFront => "new+push_front",
+                    Fill::FromItem => "from_item+append",
+                };
+                format!("blocks/b={b}/{f}/{}", if blk_left { "merge(blk,t)" } else { "merge(t,blk)" })
+            }
+            Hist::Strided { k, front } => format!("strided/k={k}/{}", end(front)),
+            Hist::Window { w, front } => format!("window/w={w}/{}", end(front)),
+            Hist::Queue { len, front } => format!("queue/len={len}/{}", end(front)),
+            Hist::Interleaved { op, front } => format!("interleaved/{op}/{}", end(front)),
+        }
+    }
+
+    /// violations are reported once per family (first failing case in menu order)
+    fn family(&self) -> &'static str {
+        match *self {
+            Hist::Basic(m) => m,
+            Hist::Blocks { .. } => "blocks",
+            Hist::Strided { .. } => "strided",
+            Hist::Window { .. } => "window",
+            Hist::Queue { .. } => "queue",
+            Hist::Interleaved { .. } => "interleaved",
+        }
+    }
+
+    /// the size parameter `n` of the tier; `total` = node creations a parametrised history may spend
+    fn size(&self, quick: bool) -> usize {
+        let n = if quick { 100_000 } else { 1_000_000 };
+        let total = if quick { 1 << 17 } else { 1 << 20 };
+        match *self {
+            Hist::Basic(_) | Hist::Blocks { .. } | Hist::Interleaved { .. } => n,
+            // at least 256 elements per treap: a chain is far over the bound (60.0) there
+            Hist::Strided { k, .. } => (total / k).max(256),
+            Hist::Window { w, .. } => (total / 2 / w).max(256),
+            Hist::Queue { .. } => total,
+        }
+    }
+
+    /// Stream offsets (node creations of the thread before the history starts).  A strided history covers
+    /// all k phases by construction (every treap is probed), so it only runs at the start of the stream,
+    /// shortly after it and far from it.
+    fn offsets(&self) -> &'static [usize] {
+        match self {
+            Hist::Strided { .. } => &[0, 17, 1000],
+            _ => &[0, 1, 2, 3, 17, 1000],
+        }
+    }
+
+    /// rough number of operations, for scheduling only
+    fn cost(&self, n: usize) -> usize {
+        match *self {
+            Hist::Basic(_) | Hist::Blocks { .. } => n,
+            Hist::Strided { k, .. } => n * k,
+            Hist::Window { w, .. } => 2 * n * w,
+            Hist::Queue { len, .. } => 2 * (n + len),
+            Hist::Interleaved { .. } => 3 * n,
+        }
+    }
+}
+
+/// Height / heap-order probes of one history.
+struct Prober {
+    label: String,
+    offset: usize,
+    /// size from which the next "doubling" probe is due
+    next: usize,
+    maxh: usize,
+    probes: u64,
+}
+
+impl Prober {
+    /// true when `sz` has reached the next power of two (from 64 on)
+    fn due(&mut self, sz: usize) -> bool {
+        if sz < self.next {
+            return false;
+        }
+        while self.next <= sz {
+            self.next *= 2;
+        }
+        true
+    }
+
+    /// unconditional probe; `which` = (index, count) when the history keeps several treaps
+    fn now(&mut self, t: &Treap<Sz>, steps: usize, which: Option<(usize, usize)>) -> Result<(), String> {
+        let sz = t.size();
+        let h = height(t);
+        self.probes += 1;
+        self.maxh = self.maxh.max(h);
+        let (name, offset) = (&self.label, self.offset);
+        let wh = which.map_or(String::new(), |(i, k)| format!("treap #{i} of {k}: "));
+        if (h as f64) > bound(sz) {
+            return Err(format!("history {name} (offset {offset}): {wh}height {h} at {sz} elements after {steps} operations exceeds 5*log2(n+1)+20 = {:.1}", bound(sz)));
+        }
+        if !heap_ok(t) {
+            return Err(format!("history {name} (offset {offset}): {wh}priorities not heap-ordered in one direction at {sz} elements"));
+        }
+        Ok(())
+    }
+
+    /// probe if the treap has doubled since the last probe
+    fn grown(&mut self, t: &Treap<Sz>, steps: usize) -> Result<(), String> {
+        if self.due(t.size()) {
+            self.now(t, steps, None)
+        } else {
+            Ok(())
+        }
+    }
+}
+
+struct MenuOk {
+    maxh: usize,
+    steps: usize,
+    probes: u64,
+}
+
+fn item() -> Sz {
+    Sz { size: 1 }
+}
+
+/// Runs one history with size parameter `n` after `offset` prior node creations (stream offset), probing
+/// height and heap order at every doubling.  Returns Err(description) on the first violation.
+fn menu_history(hist: Hist, n: usize, offset: usize) -> Result<MenuOk, String> {
     for _ in 0..offset {
-        let _ = TreapNode::new(Sz { size: 1 });
+        let _ = TreapNode::new(item());
     }
     let mut t: Treap<Sz> = Treap::new();
     let mut other: Treap<Sz> = Treap::new();
-    let mut probe = 64usize;
-    let mut maxh = 0usize;
+    let mut p = Prober { label: hist.label(), offset, next: 64, maxh: 0, probes: 0 };
     let mut steps = 0usize;
-    let mut check = |t: &Treap<Sz>, force: bool, steps: usize| -> Result<(), String> {
-        let sz = t.size();
-        if sz >= probe || force {
-            while probe <= sz {
-                probe *= 2;
-            }
-            let h = height(t);
-            maxh = maxh.max(h);
-            if (h as f64) > bound(sz) {
-                return Err(format!("history {name} (offset {offset}): height {h} at {sz} elements after {steps} operations exceeds 5*log2(n+1)+20 = {:.1}", bound(sz)));
-            }
-            if !heap_ok(t) {
-                return Err(format!("history {name} (offset {offset}): priorities not heap-ordered in one direction at {sz} elements"));
-            }
-        }
-        Ok(())
-    };
-    match name {
-        "append" => {
+    let mut expect_size = n;
+    match hist {
+        Hist::Basic("append") => {
             for _ in 0..n {
                 let s = t.size();
-                t.insert_at(s, Sz { size: 1 });
+                t.insert_at(s, item());
                 steps += 1;
-                check(&t, false, steps)?;
+                p.grown(&t, steps)?;
             }
         }
-        "push_front" => {
+        Hist::Basic("push_front") => {
             for _ in 0..n {
-                t.insert_at(0, Sz { size: 1 });
+                t.insert_at(0, item());
                 steps += 1;
-                check(&t, false, steps)?;
+                p.grown(&t, steps)?;
             }
         }
-        "insert_middle" => {
-            for _ in 0..n {
-                let s = t.size();
-                t.insert_at(s / 2, Sz { size: 1 });
-                steps += 1;
-                check(&t, false, steps)?;
-            }
-        }
-        "insert_one_third" => {
+        Hist::Basic("insert_middle") => {
             for _ in 0..n {
                 let s = t.size();
-                t.insert_at(s / 3, Sz { size: 1 });
+                t.insert_at(s / 2, item());
                 steps += 1;
-                check(&t, false, steps)?;
+                p.grown(&t, steps)?;
             }
         }
-        "rotate" => {
+        Hist::Basic("insert_one_third") => {
+            for _ in 0..n {
+                let s = t.size();
+                t.insert_at(s / 3, item());
+                steps += 1;
+                p.grown(&t, steps)?;
+            }
+        }
+        Hist::Basic("rotate") => {
             // append, and every 7th step split at a third and swap the parts
             for i in 0..n {
                 let s = t.size();
-                t.insert_at(s, Sz { size: 1 });
+                t.insert_at(s, item());
                 if i % 7 == 6 {
                     let s = t.size();
                     let (a, b) = std::mem::take(&mut t).split_at(s / 3);
                     t = Treap::merge(b, a);
                 }
                 steps += 1;
-                check(&t, false, steps)?;
+                p.grown(&t, steps)?;
             }
         }
-        "append_remove_alternate" => {
+        Hist::Basic("append_remove_alternate") => {
             // append two, remove the one before last: the tree grows by one per round
             for _ in 0..n {
                 let s = t.size();
-                t.insert_at(s, Sz { size: 1 });
+                t.insert_at(s, item());
                 let s = t.size();
-                t.insert_at(s, Sz { size: 1 });
+                t.insert_at(s, item());
                 let s = t.size();
                 let _ = t.remove_at(s - 2);
                 steps += 3;
-                check(&t, false, steps)?;
+                p.grown(&t, steps)?;
             }
         }
-        "two_treaps_then_merge" => {
+        Hist::Basic("two_treaps_then_merge") => {
             for i in 0..n {
                 if i % 2 == 0 {
                     let s = t.size();
-                    t.insert_at(s, Sz { size: 1 });
+                    t.insert_at(s, item());
                 } else {
-                    other.insert_at(0, Sz { size: 1 });
+                    other.insert_at(0, item());
                 }
                 steps += 1;
-                check(&t, false, steps)?;
+                p.grown(&t, steps)?;
             }
-            check(&other, true, steps)?;
+            p.now(&other, steps, None)?;
             t = Treap::merge(t, std::mem::take(&mut other));
         }
-        "from_item_merge" => {
+        Hist::Basic("from_item_merge") => {
             for _ in 0..n {
-                t = Treap::merge(t, Treap::from_item(Sz { size: 1 }));
+                t = Treap::merge(t, Treap::from_item(item()));
                 steps += 1;
-                check(&t, false, steps)?;
+                p.grown(&t, steps)?;
             }
         }
-        _ => unreachable!(),
+        Hist::Basic(_) => unreachable!(),
+        Hist::Blocks { b, fill, blk_left } => {
+            let blocks = n.div_ceil(b);
+            expect_size = blocks * b;
+            for _ in 0..blocks {
+                let mut blk: Treap<Sz> = match fill {
+                    Fill::NewAppend | Fill::NewFront => Treap::new(),
+                    Fill::FromItem => Treap::from_item(item()),
+                };
+                while blk.size() < b {
+                    let s = blk.size();
+                    blk.insert_at(if fill == Fill::NewFront { 0 } else { s }, item());
+                }
+                steps += b + 1;
+                // a block is a treap of the program like any other (it can only fail from 46 elements on)
+                if (b as f64) > bound(b) {
+                    p.now(&blk, steps, None)?;
+                }
+                t = if blk_left { Treap::merge(blk, t) } else { Treap::merge(t, blk) };
+                p.grown(&t, steps)?;
+            }
+        }
+        Hist::Strided { k, front } => {
+            let mut ts: Vec<Treap<Sz>> = (0..k).map(|_| Treap::new()).collect();
+            for round in 0..n {
+                for x in ts.iter_mut() {
+                    x.insert_at(if front { 0 } else { round }, item());
+                }
+                steps += k;
+                if p.due(round + 1) || round + 1 == n {
+                    for (i, x) in ts.iter().enumerate() {
+                        p.now(x, steps, Some((i, k)))?;
+                    }
+                }
+            }
+            // finally all of them concatenated
+            for x in ts {
+                t = Treap::merge(t, x);
+            }
+            steps += k;
+            expect_size = n * k;
+        }
+        Hist::Window { w, front } => {
+            for round in 0..n {
+                for i in 0..w {
+                    t.insert_at(if front { 0 } else { round + i }, item());
+                }
+                let due = p.due(round + 1) || round + 1 == n;
+                if due {
+                    p.now(&t, steps + w, None)?;
+                }
+                // back: the burst sits at positions round..round+w, its newest element last;
+                // front: the burst sits at positions 0..w, its newest element first
+                for _ in 0..w - 1 {
+                    let _ = t.remove_at(if front { 1 } else { round });
+                }
+                steps += 2 * w - 1;
+                if due {
+                    p.now(&t, steps, None)?;
+                }
+            }
+        }
+        Hist::Queue { len, front } => {
+            for i in 0..len + n {
+                let s = t.size();
+                t.insert_at(if front { 0 } else { s }, item());
+                steps += 1;
+                if i >= len {
+                    let _ = t.remove_at(if front { len } else { 0 });
+                    steps += 1;
+                }
+                // once per complete turnover of the queue
+                if (i + 1) % len == 0 {
+                    p.now(&t, steps, None)?;
+                }
+            }
+            expect_size = len;
+        }
+        Hist::Interleaved { op, front } => {
+            // a second treap the quiet operations work on; its 1000 nodes are created first
+            for i in 0..1000 {
+                other.insert_at(i, item());
+            }
+            let does = |o: &str| op == o || op == "all";
+            for i in 0..n {
+                let s = t.size();
+                t.insert_at(if front { 0 } else { s }, item());
+                steps += 1;
+                if does("new_empty") {
+                    let e: Treap<Sz> = Treap::new();
+                    if !e.is_empty() || e.size() != 0 {
+                        return Err(format!("history {} (offset {offset}): Treap::new() is not empty", p.label));
+                    }
+                    steps += 1;
+                }
+                if does("merge_empty") {
+                    let x = std::mem::take(&mut t);
+                    t = if i % 2 == 0 { Treap::merge(x, Treap::new()) } else { Treap::merge(Treap::new(), x) };
+                    steps += 1;
+                }
+                if does("other_rotate") {
+                    let (a, b) = std::mem::take(&mut other).split_at(1000 / 3);
+                    other = Treap::merge(b, a);
+                    steps += 2;
+                }
+                if does("other_queries") {
+                    let ok = other.first().is_some() && other.last().is_some() && other.root().is_some() && other.size() == 1000;
+                    if !ok {
+                        return Err(format!("history {} (offset {offset}): the second treap lost elements", p.label));
+                    }
+                    steps += 4;
+                }
+                if does("self_split_merge") {
+                    let s = t.size();
+                    let (a, b) = std::mem::take(&mut t).split_at(s / 2);
+                    t = Treap::merge(a, b);
+                    steps += 2;
+                }
+                p.grown(&t, steps)?;
+            }
+            p.now(&other, steps, None)?;
+        }
     }
-    check(&t, true, steps)?;
-    if t.size() != n {
-        return Err(format!("history {name}: size() is {} after building {} elements", t.size(), n));
+    p.now(&t, steps, None)?;
+    if t.size() != expect_size {
+        return Err(format!("history {}: size() is {} after building {} elements", p.label, t.size(), expect_size));
     }
-    Ok((maxh, steps))
+    Ok(MenuOk { maxh: p.maxh, steps, probes: p.probes })
 }
 
 /// Each (history, offset) runs in its own thread: the stack is generous (a degenerate tree is caught by
 /// the probes long before recursion depth matters) and, with a per-thread generator, the stream offset
 /// is exact.
-fn menu_case(name: &'static str, n: usize, offset: usize) -> Result<(usize, usize), String> {
+fn menu_case(hist: Hist, n: usize, offset: usize) -> Result<MenuOk, String> {
     std::thread::Builder::new()
         .stack_size(256 << 20)
-        .spawn(move || menu_history(name, n, offset))
+        .spawn(move || {
+            let r = menu_history(hist, n, offset);
+            let cpu: f64 = std::fs::read_to_string("/proc/thread-self/schedstat").ok().and_then(|s| s.split_whitespace().next().and_then(|x| x.parse::<f64>().ok())).unwrap_or(0.0) / 1e9;
+            eprintln!("CPU {:.3} {} o={} n={}", cpu, hist.label(), offset, n);
+            r
+        })
         .unwrap()
         .join()
-        .unwrap_or_else(|_| Err(format!("history {name} (offset {offset}) panicked")))
+        .unwrap_or_else(|_| Err(format!("history {} (offset {offset}) panicked", hist.label())))
 }
 
 // ---------------------------------------------------------------------------------------------
@@ -925,7 +1225,11 @@ fn main() {
     };
     let confirm = move |v: &Value| -> Result<(), String> {
         match v["kind"].as_str().unwrap_or("") {
-            "menu" => menu_case(MENU.iter().find(|m| **m == v["name"].as_str().unwrap()).unwrap(), v["n"].as_u64().unwrap() as usize, v["offset"].as_u64().unwrap() as usize).map(|_| ()),
+            "menu" => {
+                let name = v["name"].as_str().unwrap_or("");
+                let hist = menu().into_iter().find(|h| h.label() == name).ok_or_else(|| format!("replay file names an unknown history {name:?}"))?;
+                menu_case(hist, v["n"].as_u64().unwrap() as usize, v["offset"].as_u64().unwrap() as usize).map(|_| ())
+            }
             "constructors" => check_constructors(),
             _ => {
                 let p0 = if v["controlled"].as_bool().unwrap_or(false) { measure_p0() } else { None };
@@ -994,56 +1298,103 @@ fn main() {
     run.assume("the harness item (value, size, word aggregate, affine tag) is a lawful TreapItem; a node without children does not record a pending tag (nothing can read it)");
 
     if mode == Mode::C16 {
-        // directed long histories, real generator
-        let n = if quick { 100_000 } else { 1_000_000 };
-        let offsets: &[usize] = &[0, 1, 2, 3, 17, 1000];
-        let cases: Vec<(&'static str, usize)> = MENU.iter().flat_map(|m| offsets.iter().map(move |o| (*m, *o))).collect();
+        // directed long histories, real generator: one thread per (history, stream offset)
+        let hists = menu();
         // the two strictly monotone insertion orders are the ones a weak priority source degenerates on
         // first: they run to 10^6 elements in the quick tier as well
-        let big = |m: &str, o: usize| -> usize { if quick && (m == "append" || m == "push_front") && (o == 0 || o == 17) { 1_000_000 } else { n } };
-        let results: Vec<((&'static str, usize), Result<(usize, usize), String>)> = {
+        let size_of = |h: &Hist, o: usize| -> usize {
+            if quick && matches!(h, Hist::Basic("append") | Hist::Basic("push_front")) && (o == 0 || o == 17) {
+                1_000_000
+            } else {
+                h.size(quick)
+            }
+        };
+        let cases: Vec<(Hist, usize, usize)> = hists.iter().flat_map(|h| h.offsets().iter().map(move |o| (*h, *o))).map(|(h, o)| (h, o, size_of(&h, o))).collect();
+        let results: Vec<Result<MenuOk, String>> = {
+            use std::sync::atomic::AtomicUsize;
             use std::sync::Mutex;
-            let out = Mutex::new(vec![]);
+            // longest first, 16 workers taking the next case from a shared counter
+            let mut order: Vec<usize> = (0..cases.len()).collect();
+            order.sort_by_key(|&i| std::cmp::Reverse(cases[i].0.cost(cases[i].2)));
+            let next = AtomicUsize::new(0);
+            let out: Mutex<Vec<Option<Result<MenuOk, String>>>> = Mutex::new((0..cases.len()).map(|_| None).collect());
             std::thread::scope(|sc| {
-                let chunks: Vec<Vec<(&'static str, usize)>> = (0..16).map(|w| cases.iter().copied().skip(w).step_by(16).collect()).collect();
-                for ch in chunks {
-                    let out = &out;
-                    sc.spawn(move || {
-                        for (m, o) in ch {
-                            let r = menu_case(m, big(m, o), o);
-                            out.lock().unwrap().push(((m, o), r));
-                        }
+                for _ in 0..16 {
+                    sc.spawn(|| loop {
+                        let j = next.fetch_add(1, Ordering::Relaxed);
+                        let Some(&i) = order.get(j) else { break };
+                        let (h, o, n) = cases[i];
+                        let t0 = std::time::Instant::now();
+                        let r = menu_case(h, n, o);
+                        eprintln!("TIMING {:.3} {} o={} n={}", t0.elapsed().as_secs_f64(), h.label(), o, n);
+                        out.lock().unwrap()[i] = Some(r);
                     });
                 }
             });
-            let mut v = out.into_inner().unwrap();
-            v.sort_by_key(|x| (MENU.iter().position(|m| *m == (x.0).0), (x.0).1));
-            v
+            out.into_inner().unwrap().into_iter().map(|r| r.unwrap()).collect()
         };
         let mut maxh = 0;
         let mut ops = 0u64;
-        let mut failed_histories: Vec<&'static str> = vec![];
-        for ((m, o), r) in results {
+        let mut probes = 0u64;
+        let mut failed_families: Vec<&'static str> = vec![];
+        let mut per_family: Vec<(&'static str, u64, u64)> = vec![]; // (family, cases, max height)
+        // menu order (simplest parameters first), then stream offsets
+        for ((h, o, n), r) in cases.iter().zip(results) {
+            let fam = h.family();
+            if per_family.last().map(|f| f.0) != Some(fam) {
+                per_family.push((fam, 0, 0));
+            }
+            let pf = per_family.last_mut().unwrap();
+            pf.1 += 1;
             match r {
-                Ok((h, steps)) => {
-                    maxh = maxh.max(h);
-                    ops += steps as u64;
+                Ok(ok) => {
+                    if ok.probes == 0 {
+                        run.machinery_failure(&format!("history {} was never probed", h.label()));
+                    }
+                    maxh = maxh.max(ok.maxh);
+                    pf.2 = pf.2.max(ok.maxh as u64);
+                    ops += ok.steps as u64;
+                    probes += ok.probes;
                 }
                 Err(msg) => {
-                    // one report per history: its first failing stream offset
-                    if !failed_histories.contains(&m) {
-                        failed_histories.push(m);
-                        run.violation(Violation::new(format!("menu:{m}:offset={o}:n={}", big(m, o)), msg, json!({"kind": "menu", "name": m, "n": big(m, o), "offset": o})));
+                    // one report per family: its first failing history and stream offset
+                    if !failed_families.contains(&fam) {
+                        failed_families.push(fam);
+                        let name = h.label();
+                        run.violation(Violation::new(format!("menu:{name}:offset={o}:n={n}"), msg, json!({"kind": "menu", "name": name, "n": n, "offset": o})));
                     }
                 }
             }
         }
-        run.cov("directed_histories", (MENU.len() * offsets.len()) as u64);
+        let n = Hist::Basic("append").size(quick);
+        run.cov("directed_histories", cases.len() as u64);
+        run.cov("directed_history_families", Value::Array(per_family.iter().map(|f| json!({"family": f.0, "cases": f.1, "max_height": f.2})).collect()));
         run.cov("directed_history_elements", n as u64);
         run.cov("directed_history_operations", ops);
+        run.cov("directed_height_probes", probes);
         run.cov("directed_max_height", maxh as u64);
         run.cov("directed_height_bound", bound(n));
-        run.cov("directed_histories_note", "NOT exhaustive: a fixed menu of adversarial deterministic histories (sorted appends, front insertion, middle insertion, split-and-swap rotations, append/remove alternation, two treaps merged, from_item+merge) through the real priority generator at 6 stream offsets; height probed at every doubling against 5*log2(n+1)+20");
+        let total = Hist::Queue { len: 64, front: false }.size(quick);
+        run.cov(
+            "directed_histories_note",
+            format!(
+                "DIRECTED, NOT exhaustive: a fixed menu of {} deterministic histories through the real priority generator, each on a thread of its own at the stream offsets {:?} (node creations of the thread before the history; strided histories at {:?}); height against 5*log2(n+1)+20 and heap order probed at every doubling of the size. \
+                 Families: (a) one treap of {n} consecutive creations (10^6 for append / push_front): sorted appends, front insertion, insertion at 1/2 and 1/3, split-and-swap rotations, append/remove alternation, two treaps merged, from_item+merge; \
+                 (b) blocks: blocks of b in {:?} elements, each built in its own Treap::new() by appends or by front insertions, or started by from_item, and concatenated with merge(t, blk) or merge(blk, t) up to {n} elements; \
+                 (c) strided: k in {:?} treaps filled round-robin by appends or by front insertions (each owns every k-th creation), max({total}/k, 256) elements each, EVERY one of the k treaps probed at every doubling, finally all merged; \
+                 (d) window: max({}/w, 256) rounds of w insertions at one end followed by removal of the w-1 older ones of the burst (survivors = every w-th creation), same set of w, probed at the peak and after the removals; \
+                 (e) queue: fixed length in {:?}, insert at one end + remove at the other for {total} steps, probed once per turnover; \
+                 (f) interleaved: appends / front insertions with operations that create no node between any two of them ({:?}: Treap::new(), merge with an empty treap, split_at+merge on a second treap, first/last/root/size on it, split_at+merge of the treap itself)",
+                hists.len(),
+                Hist::Basic("append").offsets(),
+                Hist::Strided { k: 2, front: false }.offsets(),
+                BLOCK_SIZES,
+                STRIDES,
+                total / 2,
+                QUEUE_LENS,
+                QUIET_OPS
+            ),
+        );
         run.sample(json!({"directed_history": "append", "elements": n, "max_height_over_menu": maxh}));
         exhaustive = false;
     }
